@@ -6,6 +6,13 @@
 //           returns (detected by rip == the return address read at entry; comparing rsp is
 //           wrong for Go: morestack / g0 switches) and log every instruction.
 // mode 'm': marker / log-only breakpoint: log the registers at entry and continue.
+// mode 'G' + 'L' (with -r ranges): "library stepping". While the thread is inside the function under the
+//           'G' (gate) breakpoint, every instruction it executes inside the address ranges of kind 'g' is
+//           single-stepped and logged; code outside the ranges (runtime, standard library, harness) runs at
+//           full speed: on a call out of the ranges a temporary breakpoint at the return address resumes the
+//           stepping, and 'L' breakpoints on the entries of the functions in the ranges catch calls INTO them
+//           from outside. Ranges of kind 'a' (assembly routines traced elsewhere) only have their entry logged.
+//           -r file: lines "<lo hex> <hi hex> <g|a>".
 //
 // Record (little endian, 19 x uint64): tag, rip, rsp, rax, rbx, rcx, rdx, rsi, rdi, rbp,
 // r8..r15, eflags.  tag = kind | bpindex << 8 with kind 0 = step, 1 = entry, 2 = returned,
@@ -23,7 +30,7 @@
 #include <sys/wait.h>
 #include <unistd.h>
 
-#define MAXBP 256
+#define MAXBP 2048
 static uint64_t bp_addr[MAXBP];
 static long bp_orig[MAXBP];
 static char bp_mode[MAXBP];
@@ -78,6 +85,96 @@ static void release_postponed(pid_t t) {
   npostponed = 0;
 }
 
+
+// ---- library stepping (modes G / L)
+#define MAXRANGE 4096
+static uint64_t rg_lo[MAXRANGE], rg_hi[MAXRANGE];
+static char rg_kind[MAXRANGE];
+static int nrg;
+static int range_of(uint64_t pc) {
+  int lo = 0, hi = nrg - 1;
+  while (lo <= hi) {
+    int mid = (lo + hi) / 2;
+    if (pc < rg_lo[mid]) hi = mid - 1;
+    else if (pc >= rg_hi[mid]) lo = mid + 1;
+    else return mid;
+  }
+  return -1;
+}
+#define MAXTMP 64
+static uint64_t tmp_addr[MAXTMP];
+static long tmp_orig[MAXTMP];
+static char tmp_kind[MAXTMP]; // 'R' resume stepping, 'E' end of the gate
+static int ntmp;
+static int armed;
+static pid_t armed_tid;
+static uint64_t frames[256];
+static int nframes;
+static long lib_steps, lib_lost;
+
+static int find_perm(uint64_t a) { for (int i = 0; i < nbp; i++) if (bp_addr[i] == a) return i; return -1; }
+static int find_tmp(uint64_t a) { for (int i = 0; i < ntmp; i++) if (tmp_addr[i] == a) return i; return -1; }
+static uint64_t peek(pid_t t, uint64_t a) { errno = 0; return (uint64_t)ptrace(PTRACE_PEEKDATA, t, (void *)a, 0); }
+static void set_tmp(pid_t t, uint64_t a, char kind) {
+  if (find_tmp(a) >= 0 || ntmp >= MAXTMP) return;
+  if (find_perm(a) >= 0) return; // a permanent breakpoint already stops there
+  errno = 0;
+  long w = ptrace(PTRACE_PEEKTEXT, t, (void *)a, 0);
+  if (errno) return;
+  tmp_addr[ntmp] = a; tmp_orig[ntmp] = w; tmp_kind[ntmp] = kind; ntmp++;
+  ptrace(PTRACE_POKETEXT, t, (void *)a, (void *)((w & ~0xffL) | 0xcc));
+}
+static void clear_tmp(pid_t t, int i) {
+  errno = 0;
+  long w = ptrace(PTRACE_PEEKTEXT, t, (void *)tmp_addr[i], 0);
+  if (!errno) ptrace(PTRACE_POKETEXT, t, (void *)tmp_addr[i], (void *)((w & ~0xffL) | (tmp_orig[i] & 0xff)));
+  tmp_addr[i] = tmp_addr[ntmp - 1]; tmp_orig[i] = tmp_orig[ntmp - 1]; tmp_kind[i] = tmp_kind[ntmp - 1]; ntmp--;
+}
+// execute exactly the instruction at rip (lifting a planted breakpoint byte for the duration)
+static int step_insn(pid_t t, uint64_t rip) {
+  int pi = find_perm(rip), ti = find_tmp(rip);
+  if (pi >= 0) poke_bp(t, pi, 0);
+  long w = 0;
+  if (ti >= 0) { w = ptrace(PTRACE_PEEKTEXT, t, (void *)rip, 0); ptrace(PTRACE_POKETEXT, t, (void *)rip, (void *)((w & ~0xffL) | (tmp_orig[ti] & 0xff))); }
+  int f = step_once(t);
+  if (ti >= 0) { w = ptrace(PTRACE_PEEKTEXT, t, (void *)rip, 0); ptrace(PTRACE_POKETEXT, t, (void *)rip, (void *)((w & ~0xffL) | 0xcc)); }
+  if (pi >= 0) poke_bp(t, pi, 1);
+  return f;
+}
+// thread t stands at an instruction inside the ranges that has not been executed yet: step and log until it leaves
+// them; returns the signal to deliver with PTRACE_CONT (0 normally)
+static int lib_step(pid_t t, int tagidx, long *steps, long maxsteps) {
+  struct user_regs_struct r;
+  for (;;) {
+    ptrace(PTRACE_GETREGS, t, 0, &r);
+    int ri = range_of(r.rip);
+    if (ri >= 0) {
+      emit(0 | ((uint64_t)tagidx << 8), &r);
+      (*steps)++; lib_steps++;
+      if (rg_kind[ri] == 'a' && r.rip == rg_lo[ri]) {
+        // entry of an assembly routine: logged, then it runs at full speed; stepping resumes at its return address
+        uint64_t ret = peek(t, r.rsp);
+        int rr = range_of(ret);
+        if (rr >= 0 && rg_kind[rr] == 'g') set_tmp(t, ret, 'R');
+        else if (nframes > 0 && frames[nframes - 1] == ret) nframes--;
+        int f = step_insn(t, r.rip);
+        return f;
+      }
+      if (*steps > maxsteps) return -1;
+      int f = step_insn(t, r.rip);
+      if (f) { ptrace(PTRACE_GETREGS, t, 0, &r); emit(4 | ((uint64_t)tagidx << 8) | ((uint64_t)f << 16), &r); return f; }
+      continue;
+    }
+    // left the ranges
+    if (nframes > 0 && r.rip == frames[nframes - 1]) { nframes--; return 0; } // returned to the outside caller
+    uint64_t ret = peek(t, r.rsp);
+    int rr = range_of(ret);
+    if (rr >= 0 && rg_kind[rr] == 'g') set_tmp(t, ret, 'R'); // a call out of the ranges: resume at its return
+    else lib_lost++;
+    return 0;
+  }
+}
+
 int main(int argc, char **argv) {
   int ai = 1;
   const char *outp = NULL;
@@ -85,6 +182,13 @@ int main(int argc, char **argv) {
   while (ai < argc && argv[ai][0] == '-') {
     if (!strcmp(argv[ai], "-o")) outp = argv[++ai];
     else if (!strcmp(argv[ai], "-n")) maxsteps = atol(argv[++ai]);
+    else if (!strcmp(argv[ai], "-r")) {
+      FILE *rf = fopen(argv[++ai], "r");
+      if (!rf) { perror("vtrace: ranges"); return 2; }
+      unsigned long long lo, hi; char k;
+      while (nrg < MAXRANGE && fscanf(rf, "%llx %llx %c", &lo, &hi, &k) == 3) { rg_lo[nrg] = lo; rg_hi[nrg] = hi; rg_kind[nrg] = k; nrg++; }
+      fclose(rf);
+    }
     else if (!strcmp(argv[ai], "-b")) {
       char *s = strdup(argv[++ai]);
       for (char *t = strtok(s, ","); t; t = strtok(NULL, ",")) {
@@ -122,7 +226,7 @@ int main(int argc, char **argv) {
     if (WIFEXITED(st) || WIFSIGNALED(st)) {
       if (t == mainpid) {
         int code = WIFEXITED(st) ? WEXITSTATUS(st) : 128 + WTERMSIG(st);
-        fprintf(stderr, "vtrace: child exit status %d steps %ld invocations %ld markers %ld postponed-signals %ld\n", code, steps, invocations, markers, nsignals_postponed);
+        fprintf(stderr, "vtrace: child exit status %d steps %ld invocations %ld markers %ld postponed-signals %ld lib-steps %ld lib-lost %ld\n", code, steps, invocations, markers, nsignals_postponed, lib_steps, lib_lost);
         fclose(out);
         return code;
       }
@@ -137,7 +241,47 @@ int main(int argc, char **argv) {
       ptrace(PTRACE_GETREGS, t, 0, &r);
       int hit = -1;
       for (int i = 0; i < nbp; i++) if (r.rip - 1 == bp_addr[i]) hit = i;
+      int th = hit < 0 ? find_tmp(r.rip - 1) : -1;
+      if (th >= 0) {
+        // temporary breakpoint of the library stepping
+        r.rip -= 1;
+        ptrace(PTRACE_SETREGS, t, 0, &r);
+        if (!armed || t != armed_tid) { int f = step_insn(t, r.rip); ptrace(PTRACE_CONT, t, 0, (void *)(long)f); continue; }
+        char kind = tmp_kind[th];
+        clear_tmp(t, th);
+        if (kind == 'E') {
+          armed = 0; nframes = 0;
+          while (ntmp > 0) clear_tmp(t, 0);
+          release_postponed(t);
+          ptrace(PTRACE_CONT, t, 0, 0);
+          continue;
+        }
+        int f = lib_step(t, 0, &steps, maxsteps);
+        if (f < 0) { fprintf(stderr, "vtrace: step limit\n"); kill(mainpid, SIGKILL); fclose(out); return 3; }
+        release_postponed(t);
+        ptrace(PTRACE_CONT, t, 0, (void *)(long)f);
+        continue;
+      }
       if (hit < 0) { ptrace(PTRACE_CONT, t, 0, 0); continue; }
+      if (bp_mode[hit] == 'G' || bp_mode[hit] == 'L') {
+        r.rip -= 1;
+        ptrace(PTRACE_SETREGS, t, 0, &r);
+        if (bp_mode[hit] == 'G') {
+          armed = 1; armed_tid = t; nframes = 0;
+          set_tmp(t, peek(t, r.rsp), 'E');
+          invocations++;
+          int f = step_insn(t, r.rip);
+          ptrace(PTRACE_CONT, t, 0, (void *)(long)f);
+          continue;
+        }
+        if (!armed || t != armed_tid) { int f = step_insn(t, r.rip); ptrace(PTRACE_CONT, t, 0, (void *)(long)f); continue; }
+        if (nframes < 256) frames[nframes++] = peek(t, r.rsp);
+        int f = lib_step(t, hit, &steps, maxsteps);
+        if (f < 0) { fprintf(stderr, "vtrace: step limit\n"); kill(mainpid, SIGKILL); fclose(out); return 3; }
+        release_postponed(t);
+        ptrace(PTRACE_CONT, t, 0, (void *)(long)f);
+        continue;
+      }
       poke_bp(t, hit, 0);
       r.rip -= 1;
       ptrace(PTRACE_SETREGS, t, 0, &r);
